@@ -227,6 +227,18 @@ def spec_runs(nodes, own_only=False):
     return runs
 
 
+def span_conflict(nodes):
+    """a STYLE START node with a layout, followed (before its end node) by a text node whose own layout is another one"""
+    for i, n in enumerate(nodes):
+        if n[0] in ("style", "ustyle") and n[1] and posgen.has_parts(n[-1]):
+            for m in nodes[i + 1:]:
+                if m[0] in ("style", "ustyle") and not m[1]:
+                    break
+                if m[0] == "text" and posgen.has_parts(m[-1]) and geo(m[-1]) != geo(n[-1]):
+                    return True
+    return False
+
+
 def first_truthy_layout(*ls):
     for l in ls:
         if l is not None and (posgen.has_parts(l) or bool(posgen.tup(l)[4])):
@@ -287,10 +299,12 @@ def check_vtt_case(acs, cfg, res, printed, stats):
             stats["mixed"] += 1    # some (not all) text nodes have no node-level layout: the statement leaves open how they group
             continue
         # (no text node has a node-level layout: one cue, positioned by the caption's, else the language's layout)
-        # a text node that takes its layout from the enclosing STYLE span (own layout absent): WebVTTWriter looks at the
-        # text node's own layout only.  Known finding C12-vtt-span-layout-ignored - assigned only when the output is exactly
-        # what that behaviour gives (= the model's cues for this caption)
-        span_derived = any(levels[i] != i for i in texts)
+        # a text node whose own layout_info disagrees with the layout of the STYLE span it sits in (own layout absent: node
+        # level = the span's; or another layout: node level = its own): WebVTTWriter groups by the layout_info of TEXT nodes
+        # and of STYLE START nodes separately, so the span's start node opens a cue of its own that holds only the opening
+        # tag.  Known finding C12-vtt-span-layout-ignored - assigned only when the output is exactly what that behaviour
+        # gives (= the model's cues for this caption)
+        span_derived = any(levels[i] != i for i in texts) or span_conflict(c["nodes"])
         as_model = len(mine) == len(ms[ci].v) and all(same_out(mo, cu[1], printed) for mo, cu in zip(ms[ci].v, mine))
         runs = spec_runs(c["nodes"])
         if len(runs) > 1:
@@ -299,8 +313,9 @@ def check_vtt_case(acs, cfg, res, printed, stats):
         if not runs_match(runs, mine):
             if span_derived and as_model:
                 res["violations"].append(dict(base, kind="vtt-cue-splitting-span-layout", shape="span-layout", impl_obs=repr(mine),
-                                              what=f"a text node whose layout comes from its enclosing style span is not given a cue of its "
-                                                   f"own: {len(mine)} cue(s) for {len(runs)} runs of node-level layouts"))
+                                              what=f"a text node inside a style span that carries another layout than the text node's own "
+                                                   f"layout_info (absent, or different): {len(mine)} cue(s) "
+                                                   f"{[(cu[1], cu[2]) for cu in mine]!r} for {len(runs)} run(s) of node-level layouts"))
                 stats["span"] += 1
                 continue
             res["violations"].append(dict(base, kind="vtt-cue-splitting", impl_obs=repr(mine),
@@ -364,11 +379,28 @@ def check_vtt_case(acs, cfg, res, printed, stats):
 def stream_vtt(ctx, res, printed):
     rng = ctx.rng
     stats = {"split": 0, "mixed": 0, "refused": 0, "span": 0, "cue_settings": 0}
-    # deterministic shape of the known finding C12-vtt-span-layout-ignored
+    # deterministic shapes of the known finding C12-vtt-span-layout-ignored: the text inside a span with layout S has no
+    # layout of its own / has the caption's layout C; and the shape the statement holds on (the text carries S)
     S, C = posgen.PCT_LAYOUTS["S"], posgen.PCT_LAYOUTS["C"]
-    acs = {"global": None, "langs": [{"name": "en-US", "layout": None, "caps": [{"layout": C, "nodes": [
-        ["text", "aa0", C], ["break", None], ["style", True, S], ["text", "bb1", None], ["style", False, S]]}]}]}
-    check_vtt_case(acs, (False, False, None, None), res, printed, stats)
+    for inner in (None, C, S):
+        acs = {"global": None, "langs": [{"name": "en-US", "layout": None, "caps": [{"layout": C, "nodes": [
+            ["text", "aa0", C], ["break", None], ["style", True, S], ["text", "bb1", inner], ["style", False, S]]}]}]}
+        check_vtt_case(acs, (False, False, None, None), res, printed, stats)
+    # exhaustive small grid around a span: layout of the text before x of the span x of the text inside x of the text after,
+    # styled / unstyled span, with / without a break before it (captions with some, not all, node-level layouts stay open)
+    for first in (None, C, S):
+        for span in (None, C, S):
+            for inner in (None, C, S):
+                for after in (None, C, S, False):
+                    for kind in ("style", "ustyle"):
+                        for brk in (True, False):
+                            nodes = [["text", "aa0", first]] + ([["break", None]] if brk else []) + \
+                                [[kind, True, span], ["text", "bb1", inner], [kind, False, span]]
+                            if after is not False:
+                                nodes += [["break", None], ["text", "cc2", after]]
+                            acs = {"global": None, "langs": [{"name": "en-US", "layout": posgen.PCT_LAYOUTS["L"],
+                                                              "caps": [{"layout": None, "nodes": nodes}]}]}
+                            check_vtt_case(acs, (False, False, None, None), res, printed, stats)
     for i in range(ctx.n(350, 10000)):
         rel = rng.random() < 0.6
         fit = rng.random() < 0.3
